@@ -248,6 +248,19 @@ def gen_C17(rnd, n, tier):
         whole = "\n".join(srcs)
         indep.append(Case(compile_line(cfg, whole), whole, cfg, {"indep": i, "role": "whole"}))
         for k, sp in enumerate(srcs): indep.append(Case(compile_line(cfg, sp), sp, cfg, {"indep": i, "role": k}))
+    # the same construct in very many scripts of one file (past 32 / 64): per-file counters and caps
+    REP = ["if ((flag(FLAG_A) || defeated(TRAINER_%d)) && flag(FLAG_B)) { a%d } elif (!(var(VAR_A) == 1 && flag(FLAG_C)) || flag(FLAG_D)) { b%d }",
+           "while ((flag(FLAG_A) || flag(FLAG_%d)) && !flag(FLAG_B)) { a%d if (flag(FLAG_Q)) { continue } b%d }",
+           "switch (var(VAR_A)) { case %d: a%d case 1000: b%d break default: }",
+           "do { a%d if (random(%d) == 1) { break } } while (!(flag(FLAG_A)) || specialvar(VAR_X, %d) == TRUE)",
+           "L%d: a%d goto(L%d)"]
+    for q, nrep in enumerate([34, 40, 70] if tier == "quick" else [34, 40, 70, 130, 260]):
+        f = REP[q % len(REP)] if tier == "quick" else rnd.choice(REP)
+        if q == 0: f = REP[0]
+        srcs = ["script Rep%d_%d {\n  %s\n}\n" % (q, k, f % (k, k, k)) for k in range(nrep)]
+        cfg = base_cfg(optimize=rnd.random() < 0.5); whole = "\n".join(srcs); gid = "rep%d" % q
+        indep.append(Case(compile_line(cfg, whole), whole, cfg, {"indep": gid, "role": "whole"}))
+        for k, sp in enumerate(srcs): indep.append(Case(compile_line(cfg, sp), sp, cfg, {"indep": gid, "role": k}))
     fontsK = {"FA": {"maxLineLength": 208, "numLines": 2, "cursorOverlapWidth": 0, "widths": {"default": 6, " ": 3, "{KYOGRE}": 0, "{HERO}": 4}},
               "FB": {"maxLineLength": 208, "numLines": 2, "cursorOverlapWidth": 0, "widths": {"default": 6, " ": 3, "{KYOGRE}": 36, "{HERO}": 60}}}
     for i in range(max(6, n // 8)):
@@ -401,7 +414,7 @@ PUNCT = ["(", ")", "{", "}", "[", "]", ",", ":", "*", "=", "==", "!=", "!", "<",
 ILLEGAL = ["+", "€", "&", "|", "-", "@", "/", "😀"]
 STRS = ['"hi"', '"héllo wörld"', '""', '"a\\pb$"', '"𠮷野$"', '"😀 ok"']
 TYPED = ['ascii"x"', 'braille"é"']
-RAW = ['`raw é\n  text`', '``']
+RAW = ['`raw é\n  text`', '``', '`.byte 0`', '`é € x`']
 
 def lexeme(r):
     x = r.random()
@@ -535,8 +548,20 @@ def gen_C20(rnd, n, tier):
         pre = p_block(plain_body(rnd), 1)      # statements before, inside script S
         npre = pre.count("\n")
         head = ["script Other {", "  nop", "}"] if rnd.random() < 0.5 else []
+        # where the offending script body sits: a plain script, the selected (or fallback) case of a
+        # statement poryswitch, an inline map script, an inline script of a map script table row
+        wrap = "plain"
+        if kind not in ("label_clash_probe", "dup_case_const", "dup_case_const_rev", "dup_case_multi", "const_redef", "text_clash", "movement_clash"):
+            wrap = rnd.choice(["plain", "plain", "pory", "poryd", "mapinline", "maptable"])
+        WR = {"plain": (["script S {"], ["}"], "S"),
+              "pory": (["script S {", "  poryswitch(V) {", "    A {"], ["    }", "    _ { zzz }", "  }", "}"], "S"),
+              "poryd": (["script S {", "  poryswitch(V) {", "    B { zzz }", "    _ {"], ["    }", "  }", "}"], "S"),
+              "mapinline": (["mapscripts M {", "  MAP_SCRIPT_ON_LOAD {"], ["  }", "}"], "M_MAP_SCRIPT_ON_LOAD"),
+              "maptable": (["mapscripts M {", "  MAP_SCRIPT_ON_FRAME_TABLE [", "    VAR_T, 1 {"], ["    }", "  ]", "}"], "M_MAP_SCRIPT_ON_FRAME_TABLE_0")}[wrap]
+        woff = len(WR[0]) - 1
         def assemble(lines_before_script, body_lines, after=()):
-            lines = list(lines_before_script) + ["script S {"] + body_lines + ["}"] + list(after)
+            body_lines = [re.sub(r"\bS_", WR[2] + "_", l) for l in body_lines]
+            lines = list(lines_before_script) + WR[0] + body_lines + WR[1] + list(after)
             return "\n".join(lines) + "\n"
         bl = pre.rstrip("\n").split("\n") if pre.strip() else []
         if kind == "break_outside":
@@ -570,7 +595,7 @@ def gen_C20(rnd, n, tier):
         elif kind == "continue_not_last":
             loop = rnd.choice(["while (flag(A)) {", "do {", "while {"])
             close = "  } while (flag(B))" if loop == "do {" else "  }"
-            body = bl + ["  " + loop, "    first", "    continue", "    second", close]; line = len(head) + 1 + len(bl) + 3
+            body = bl + ["  " + loop, "    first", "    continue", "    " + rnd.choice(["second", "skip:", "skip:", "skip(global):", "second(1)", "break"]), close]; line = len(head) + 1 + len(bl) + 3
             src = assemble(head, body)
         elif kind == "dup_case":
             ctx_open, ctx_close = rnd.choice([([], []), (["  while (flag(L)) {"], ["  }"])])
@@ -598,7 +623,7 @@ def gen_C20(rnd, n, tier):
             src = assemble(head, body)
         elif kind == "continue_not_last_in_case":
             cs = rnd.choice(["    case 1:", "    default:"])
-            body = bl + ["  while (flag(L)) {", "    switch (var(V)) {", cs, "      continue", "      second", "    case 2:", "      c", "    }", "  }"]
+            body = bl + ["  while (flag(L)) {", "    switch (var(V)) {", cs, "      continue", "      " + rnd.choice(["second", "skip:", "second(1)"]), "    case 2:", "      c", "    }", "  }"]
             line = len(head) + 1 + len(bl) + 4
             src = assemble(head, body)
         elif kind == "continue_after_inf_loop":
@@ -642,8 +667,8 @@ def gen_C20(rnd, n, tier):
         else:  # label_text_clash
             body = bl + ['  msgbox("hi")', "  S_Text_0:", "  b"]; line = len(head) + 1 + len(bl) + 2
             src = assemble(head, body)
-        cfg = base_cfg(optimize=rnd.random() < 0.5)
-        out.append(Case(compile_line(cfg, src), src, cfg, {"kind": kind, "line": line}))
+        cfg = base_cfg(optimize=rnd.random() < 0.5, switches={"V": "A"})
+        out.append(Case(compile_line(cfg, src), src, cfg, {"kind": kind, "line": line + woff, "wrap": wrap}))
         # the same program without the violation must be accepted (sanity of the generator)
     return out
 
